@@ -74,7 +74,9 @@ def four(p, x):
 
 # ---------------- operator expressions ---------------------------------
 OPS2 = ["add", "sub", "mul", "div", "pow"]
-CONSTS = [Fraction(0), Fraction(1), Fraction(-1), Fraction(2), Fraction(1, 2), Fraction(3), Fraction(-3, 2), Fraction(1, 3), Fraction(4)]
+CONSTS = [Fraction(0), Fraction(1), Fraction(-1), Fraction(2), Fraction(1, 2), Fraction(3), Fraction(-3, 2), Fraction(1, 3), Fraction(4),
+          # tiny but non-zero, and close to but not equal to one: only EXACT 0 and 1 are special (unit conversions such as nm -> m multiply by 1e-9)
+          Fraction(1, 10 ** 9), Fraction(-1, 10 ** 12), Fraction(10 ** 6 + 1, 10 ** 6), Fraction(10 ** 9 - 1, 10 ** 9)]
 
 
 def rand_expr(rng, depth, allow_bad):
@@ -256,7 +258,8 @@ def correspondence(ctx):
             r = impl_call(call)
             if isinstance(r, tuple) and r[1] in ("nonfinite", "ZeroDivisionError", "OverflowError"):
                 continue   # division by a zero guess / overflow: outside the algebraic model
-            ctx.corr("guess-of-expression", "evalbuild " + fl(gs) + " " + expr_tokens(e), r, tol=1e-9,
+            # operands are O(1): differences of nearly equal terms (x / 0.999999999 - x) carry an absolute rounding error ~1e-16
+            ctx.corr("guess-of-expression", "evalbuild " + fl(gs) + " " + expr_tokens(e), r, tol=1e-9, atol=1e-13,
                      inputs=dict(expr=expr_tokens(e), guesses=gs))
 
 
